@@ -739,6 +739,11 @@ class Interp:
             return r
         if v is None:
             raise self.exc('AttributeError', "'NoneType' object has no attribute %r" % name)
+        if (is_z3(v) and (z3.is_real(v) or z3.is_int(v))) or (isinstance(v, (int, float)) and not isinstance(v, bool)):
+            # a plain python number (symbolic or concrete): an attribute that neither int nor float has is an AttributeError -- python semantics, not an
+            # artefact (the value is known to be a number)
+            if not hasattr(1.0, name) and not hasattr(1, name):
+                raise self.exc('AttributeError', "'float' object has no attribute %r" % name)
         raise Unsupported('attribute %s of %r' % (name, type(v).__name__))
 
     def setattr(self, v, name, val):
@@ -1457,6 +1462,11 @@ class Interp:
             m = self.world.find_method(v.cls, '__iter__')
             if m is not None:
                 return self.iterate(self.call(BoundMethod(m, v), [], {}))
+            from .source import BuiltinClass as _BC
+            if isinstance(v.cls, _BC):
+                # an ABSTRACT object (RDKit molecule, finite map, ...) without an iteration model: the real object may well be iterable -- undecided, never an
+                # artefact TypeError
+                raise Unsupported('iteration over an abstract %s object has no model' % v.cls.name)
             raise self.exc('TypeError', '%s object is not iterable' % v.cls.name)
         raise Unsupported('iteration over %r' % (v,))
 
